@@ -27,10 +27,11 @@
 (P (tuple ;(range 400))) (P (tuple ;(range 400))) (P (tuple ;(range 399) 400)) (P (tuple ;(range 399))) (P (tuple/brackets ;(range 400)))
 (P (struct ;(mapcat |[$ (* 2 $)] (range 150)))) (P (struct ;(mapcat |[$ (* 2 $)] (reverse (range 150))))) (P (struct ;(mapcat |[$ (* 2 $)] (range 149)) 149 0))
 (P (table/to-struct (tabseq [i :range [0 150]] i (* 2 i))))
-# wide AND nested: tuples of structs of tuples; more than 128 live frames are not possible without depth > 128, which `parse`
-# and the serialiser limit; 100 levels of plain tuples are built directly
+# wide AND nested: tuples of structs of tuples; 58 levels of plain tuples are built directly
 (defn chain [d leaf] (var x leaf) (for i 0 d (set x (tuple x))) x)
 (P (chain 58 1)) (P (chain 58 1)) (P (chain 58 2)) (P (chain 57 1))
+# deeper than the initial 128 nodes of the traversal stack: push_traversal_node reallocates in the middle of a traversal
+(P (chain 300 1)) (P (chain 300 1)) (P (chain 300 2)) (P (chain 299 1)) (P (chain 140 [1 2])) (P (chain 140 [1 2])) (P (chain 140 [1 3]))
 (P (tuple ;(map |(struct :k (tuple $ (struct $ $))) (range 60)))) (P (tuple ;(map |(struct :k (tuple $ (struct $ $))) (range 60))))
 (P (tuple ;(map |(struct :k (tuple $ (struct $ (if (= $ 59) -1 $)))) (range 60))))
 # prototype chains
